@@ -17,7 +17,10 @@ Inductive qphase := QBefore | QConnecting | QStreaming | QPlain.
    lists every endpoint enabled — that is the state in which the requests run and the removal happens *)
 Record scl := mkScl { s_name : Z; s_aliases : list Z; s_neps : Z; s_pre : list (list Z) }.
 Record sreq := mkSreq { qcl : nat; qep : Z; qph : qphase; qvia : nat }.   (* qep = -1: catch-all policy *)
-Inductive saction := ADelete (cl : nat) | ARemove (cl : nat) (eps : list Z) | ANone.
+(* AGhost g: the g-th "ghost" object is deleted — an UpstreamCluster object that was never admitted because
+   its name or one of its server names belongs to another cluster.  For the property it is a removal of
+   nothing: every cluster must be unaffected. *)
+Inductive saction := ADelete (cl : nat) | ARemove (cl : nat) (eps : list Z) | ANone | AGhost (g : nat).
 
 Inductive upend := UNone | UCtx | UComplete.
 Record robs := mkRobs {
@@ -47,7 +50,7 @@ Definition ep_removed (act : saction) (ci : nat) (e : Z) : bool :=
   match act with
   | ADelete c => Nat.eqb c ci
   | ARemove c eps => Nat.eqb c ci && zin e eps
-  | ANone => false
+  | ANone | AGhost _ => false
   end.
 Definition local_of (cls : list scl) (ci : nat) (g : Z) : Z := g - offset cls ci.
 Definition in_cluster (cls : list scl) (ci : nat) (g : Z) : bool :=
